@@ -1038,3 +1038,144 @@ def c16(ctx):
                                "run": f"prlimit --fsize={lim} gopatch -p p.patch a.go", "exit": code if isinstance(code, int) else -1})
             elif after == body.encode() and code == 0:
                 ctx.violation(f"write failed at limit {lim} but exit status is 0", {"fault": "fsize-exit", "limit": lim})
+
+# --- C15 -------------------------------------------------------------------
+DIR_NAMES = ["src", "pkg", "vendor", "testdata", ".git", "_tmp", "a.go", "vendors", "test_data", "x", "internal", ".hidden", "_", "sub-dir", "v"]
+FILE_NAMES = ["a.go", "b.go", "main.go", "x_test.go", ".hidden.go", "_under.go", "README.md", "go", "c.go.txt", "a.GO", ".go", "z.go", "notgo"]
+
+def gen_tree(rng, depth):
+    """-> nested dict name -> subtree | 'f' | ('l', target) | 'o'"""
+    t = {}
+    for _ in range(rng.randint(1, 5)):
+        n = rng.choice(FILE_NAMES)
+        if n not in t:
+            t[n] = "f"
+    if depth > 0:
+        for _ in range(rng.randint(0, 3)):
+            n = rng.choice(DIR_NAMES)
+            if n not in t:
+                t[n] = gen_tree(rng, depth - 1)
+    if rng.random() < 0.3:
+        for ln, target in (("link.go", "a.go"), ("linkdir", "src"), ("dangling.go", "nowhere")):
+            if rng.random() < 0.5 and ln not in t:
+                t[ln] = ("l", target)
+    if rng.random() < 0.1 and "fifo.go" not in t:
+        t["fifo.go"] = "o"
+    return t
+
+def materialize(root, t):
+    os.makedirs(root, exist_ok=True)
+    for n, v in t.items():
+        p = os.path.join(root, n)
+        if v == "f":
+            with open(p, "w") as f:
+                f.write("package x\n")
+        elif v == "o":
+            os.mkfifo(p)
+        elif isinstance(v, tuple):
+            os.symlink(v[1], p)
+        else:
+            materialize(p, v)
+
+def tree_sx(name, t):
+    if t == "f":
+        return f"(f {cl.sx_quote(name)})"
+    if t == "o":
+        return f"(o {cl.sx_quote(name)})"
+    if isinstance(t, tuple):
+        return f"(l {cl.sx_quote(name)})"
+    return f"(d {cl.sx_quote(name)}" + "".join(" " + tree_sx(n, v) for n, v in sorted(t.items())) + ")"
+
+def all_paths(t, prefix=""):
+    out = []
+    for n, v in t.items():
+        p = prefix + n
+        out.append((p, v))
+        if isinstance(v, dict):
+            out += all_paths(v, p + "/")
+    return out
+
+@prop("C15")
+def c15(ctx):
+    ctx.rule = ("directory trees (nesting up to 4; directory names incl. vendor, testdata, .git, _tmp, a.go, vendors; files incl. "
+                ".hidden.go, _under.go, non-.go names, symlinks to files and directories, dangling links, fifos) are created on disk; "
+                "argument lists mix '.', './...', sub-directories with and without '...', absolute paths, '../<cwd>/x', explicit "
+                "files (also inside excluded directories), repeats and overlaps; the processed set and order are read from the "
+                "binary's -v lines under a patch that never matches and compared with the Lean model findFiles on the same abstract "
+                "tree. Non-trivial = at least one file processed; distinct = distinct (tree, args).")
+    rng = random.Random(ctx.seed)
+    n = 400 if ctx.tier == "quick" else 6000
+    patch = "@@\n@@\n-zzz_never_matches_zzz(1)\n+zzz(2)\n"
+    jobs = []
+    base = ctx.scratch("walk")
+    os.chmod(base, 0o755)
+    with open(os.path.join(base, "never.patch"), "w") as f:
+        f.write(patch)
+    base_comps = [c for c in base.split("/") if c]
+    for k in range(n):
+        t = gen_tree(rng, rng.randint(1, 4))
+        cwd_name = rng.choice(["w", "w", "proj", "_ws", ".ws", "vendor"]) + str(k)
+        if rng.random() < 0.85:
+            cwd_name = "w" + str(k)
+        root = os.path.join(base, cwd_name)
+        materialize(root, t)
+        paths = all_paths(t)
+        dirs = [p for p, v in paths if isinstance(v, dict)]
+        files = [p for p, v in paths if not isinstance(v, dict)]
+        safe = lambda p: not any(isinstance(v2, tuple) for q, v2 in paths if (p + "/").startswith(q + "/") and q != p)
+        cands = [".", "./...", "..." ] + [d for d in dirs if safe(d)] + [d + "/..." for d in dirs if safe(d)] + \
+                [f for f in files if safe(f)] + [os.path.join(root, d) for d in dirs[:2] if safe(d)] + \
+                [f"../{cwd_name}/" + d for d in dirs[:2] if safe(d)] + ["./" + f for f in files[:2] if safe(f)]
+        args = [rng.choice(cands) for _ in range(rng.randint(1, 4))]
+        if rng.random() < 0.05:
+            args.append("does_not_exist")
+        jobs.append((k, root, cwd_name, t, args))
+    def one(job):
+        k, root, cwd_name, t, args = job
+        code, out, err = cl.gopatch(ctx.gopatch, root, ["-p", "../never.patch", "--print-only", "-v"] + args)
+        got = [l[: -len(": skipped")] for l in out.decode("utf-8", "replace").splitlines() if l.endswith(": skipped")]
+        return code, got, err.decode("utf-8", "replace")
+    with ThreadPoolExecutor(max_workers=16) as ex:
+        obs = list(ex.map(one, jobs))
+    # model
+    lines = []
+    for k, root, cwd_name, t, args in jobs:
+        node = tree_sx(cwd_name, t)
+        for c in reversed(base_comps):
+            node = f"(d {cl.sx_quote(c)} {node})"
+        node = f'(d "" {node})'
+        cwd = " ".join(cl.sx_quote(c) for c in base_comps + [cwd_name])
+        lines.append(f'(case w{k} walk (cwd {cwd}) (args {" ".join(cl.sx_quote(a) for a in args)}) (tree {node}))')
+    r = subprocess.run([ctx.driver], input="\n".join(lines) + "\n", stdout=subprocess.PIPE, stderr=subprocess.PIPE, text=True)
+    model = {}
+    for l in r.stdout.splitlines():
+        sx = parse_sx(l)
+        if sx and sx[0] == "res":
+            fl = common.sx_field(sx[2:], "files")
+            model[sx[1]] = None if fl is None else [cl.sx_unquote(x) for x in fl]
+    for (k, root, cwd_name, t, args), (code, got, err) in zip(jobs, obs):
+        ctx.evaluations += 1
+        want = model.get(f"w{k}", "missing")
+        if want == "missing":
+            ctx.broken("driver", f"no model answer for w{k}")
+            continue
+        ctx.count("args:" + str(len(args)))
+        if got:
+            ctx.nontrivial.add(json.dumps([t, args], sort_keys=True, default=str))
+        if len(ctx.samples) < 3 and got:
+            ctx.sample({"args": args, "processed": [g[len(root) + 1:] for g in got][:8], "tree": sorted(p for p, _ in all_paths(t))[:25]})
+        if want is None:
+            if code == 0 or got:
+                ctx.violation(f"a pattern that cannot be enumerated must stop the run with an error; exit {code}, processed {len(got)} files",
+                              {"input": {"tree": sorted(p for p, _ in all_paths(t)), "args": args, "cwd": cwd_name}})
+            continue
+        if got != want:
+            extra = sorted(set(got) - set(want))
+            missing = sorted(set(want) - set(got))
+            what = f"processed files differ: unexpected {[e[len(root)+1:] for e in extra][:5]}, missing {[m[len(root)+1:] for m in missing][:5]}"
+            if not extra and not missing:
+                what = "processed files are the right set but in a different order or repeated: " + str([g[len(root)+1:] for g in got][:8])
+            ctx.violation(what, {"input": {"tree": {p: ("dir" if isinstance(v, dict) else ("symlink" if isinstance(v, tuple) else ("fifo" if v == "o" else "file"))) for p, v in all_paths(t)},
+                                            "args": args, "cwd_name": cwd_name},
+                                 "observed": [g[len(root)+1:] for g in got], "specification": [w[len(root)+1:] for w in want],
+                                 "reproduce": "create the tree (every .go file: 'package x'), cd into it, gopatch -p never.patch --print-only -v <args>"})
